@@ -5,6 +5,7 @@ import Mkdb.Proofs.ReplayInsert
 import Mkdb.Proofs.ReplayMixed
 import Mkdb.Proofs.ReplayCkpt
 import Mkdb.Proofs.ReplayCounter
+import Mkdb.Proofs.BaseCase2
 /-!
 # C02 — acknowledged statements survive a crash between statements
 
@@ -223,5 +224,54 @@ Proofs/ReplayCounter.lean is the witness, kernel-checked.) -/
 theorem C02_never_reuses_a_row_id (log : List WalRec) (s s' : Store) (h : replayAll log s = (s', none, false)) :
     (∀ r ∈ log, r.op = c_OpInsert → r.cell ≤ s'.hdr.lastKey) ∧ s.hdr.lastKey ≤ s'.hdr.lastKey :=
   replayAll_counter log s s' h
+
+end Mkdb.Store
+
+namespace Mkdb.Store
+open Mkdb.Engine Mkdb.Tree Mkdb.Page Mkdb.Generated
+
+/-- **C02.rounds_from_create_database**: `C02_rounds_keep_the_checkpoint_invariant` and
+`C02_rounds_no_recovery_fails` with their hypothesis `Ckpt` discharged at the real starting point: the
+database `CREATE DATABASE` leaves (`newDB`: the store `createDB` returns, re-opened, with an empty
+log; `C01_create_database_establishes_the_invariants`) is checkpointed for the empty plain database,
+so any number of rounds from it end checkpointed and no recovery fails.  (From the EMPTY plain database
+no row statement is accepted and `Rounds` has no CREATE TABLE, so these rounds carry no statements:
+`specRun_of_empty`; the rounds with statements start at `C02_rounds_from_create_table`.) -/
+theorem C02_rounds_from_create_database :
+    Ckpt schNew newDB [] ptNew [] ∧
+    (∀ db' sdb', Rounds schNew newDB [] db' sdb' → ∃ pt' tbls', Ckpt schNew db' sdb' pt' tbls') ∧
+    (∀ db1 dbN sdb1 sdbN stmts o1 o2, Rounds schNew newDB [] db1 sdb1 → SpecRun schNew db1 sdb1 stmts dbN sdbN →
+      ∃ db2, Engine.recover dbN o1 o2 = .ok db2 ∧ Rounds schNew newDB [] db2 sdbN) ∧
+    (∃ db1 db2, Engine.flush newDB [] = .ok () db1 ∧ Engine.recover db1 [] [] = .ok db2 ∧
+      Rounds schNew newDB [] db2 []) := by
+  refine ⟨ckpt_newDB, fun _ _ h => from_create_database_rounds h, ?_, ?_⟩
+  · intro db1 dbN sdb1 sdbN stmts o1 o2 hist run
+    obtain ⟨db2, e, hr, _⟩ := from_create_database_recover hist run o1 o2
+    exact ⟨db2, e, hr⟩
+  · obtain ⟨db1, db2, e1, e2, hr, _⟩ := rounds_newDB_example
+    exact ⟨db1, db2, e1, e2, hr⟩
+
+/-- **C02.rounds_from_create_table**: `CREATE TABLE t (a INT)` on `newDB` returns the database
+`tableDB` (computed by kernel evaluation of `evalStmt`; CREATE TABLE writes no log record and ends with
+a flush), which is checkpointed for the plain database with the one empty table `t (a INT)`; so any
+number of rounds from it end checkpointed. -/
+theorem C02_rounds_from_create_table :
+    evalStmt newDB [] (.createTable tname acols) = .ok () tableDB ∧
+    Ckpt schT tableDB sdbA0 ptT [(tname, tT)] ∧
+    ∀ db' sdb', Rounds schT tableDB sdbA0 db' sdb' → ∃ pt' tbls', Ckpt schT db' sdb' pt' tbls' :=
+  ⟨create_table_eq, ckpt_tableDB, fun _ _ h => from_create_table_rounds h⟩
+
+/-- **C02.rounds_example_from_create_database** (non-vacuity with every state produced by the model):
+`CREATE DATABASE`; `CREATE TABLE t (a INT)`; `INSERT INTO t VALUES (5), (6)`; crash; recovery;
+`UPDATE t SET a = 7 WHERE a = 5`; crash; recovery.  Both recoveries succeed and keep the log; the final
+database is checkpointed for the plain database with the rows `(7)`, `(6)`. -/
+theorem C02_rounds_example_from_create_database : ∃ db1 dbR1 db2 dbR2 pt2 tbls2,
+    evalStmt newDB [] (.createTable tname acols) = .ok () tableDB ∧
+    SpecRun schT tableDB sdbA0 [.insert tname [] [[.int 5], [.int 6]]] db1 sdbA1 ∧
+    Engine.recover db1 [] [] = .ok dbR1 ∧ dbR1.wal = db1.wal ∧
+    SpecRun schT dbR1 sdbA1 [.update tname [([97], .lit (.int 7))] (some (condEq 5))] db2 sdbA2 ∧
+    Engine.recover db2 [] [] = .ok dbR2 ∧ dbR2.wal = db2.wal ∧
+    Ckpt schT dbR2 sdbA2 pt2 tbls2 ∧ Rounds schT tableDB sdbA0 dbR2 sdbA2 :=
+  real_rounds_example
 
 end Mkdb.Store
